@@ -417,3 +417,61 @@ def run_closure_in_context(facts, clos, store, **kw):
         params[cb.local_name(1)] = val
     se = sym.SymExec(facts, cb, params=params, entry_store=entry, **kw)
     return cb, se.run()
+
+
+def square_equals3(conds, sq_expr, x):
+    """three-valued: do the decisions `conds` [(lifted expr, value)] say that square x equals sq(file F, rank R)?
+    Recognised: x == sq(F, R) directly, or file(x) == F together with rank(x) == R (in either spelling, Eq/Ne)."""
+    assert sq_expr[0] == "sq"
+    F, R = sq_expr[1], sq_expr[2]
+    direct = fe = re_ = None
+    for e, v in conds:
+        if e[0] != "bin" or e[1] not in ("Eq", "Ne") or not isinstance(v, int):
+            continue
+        holds = (e[1] == "Eq") == bool(v)
+        s = {e[2], e[3]}
+        if s == {sq_expr, x}:
+            direct = holds
+        elif s == {F, ("file", x)}:
+            fe = holds
+        elif s == {R, ("rank", x)}:
+            re_ = holds
+    if direct is not None:
+        return direct
+    if fe is False or re_ is False:
+        return False
+    if fe is True and re_ is True:
+        return True
+    return None
+
+
+def option_is_some_of3(conds, opt, x):
+    """three-valued: do the decisions say that the Option `opt` is Some(x)?  Recognised: opt == Some(x) directly, or a
+    presence test of opt together with payload == x."""
+    payload = ("field", ("downcast", opt, "Some"), "0")
+    direct = some = pe = None
+    for e, v in conds:
+        if e == ("discr", opt):
+            if isinstance(v, int):
+                some = (v == 1)
+            elif isinstance(v, tuple) and v and v[0] == "not":
+                some = False if 1 in v[1] else (True if 0 in v[1] else some)
+            continue
+        if e[0] != "bin" or e[1] not in ("Eq", "Ne") or not isinstance(v, int):
+            continue
+        holds = (e[1] == "Eq") == bool(v)
+        s = (e[2], e[3])
+        for a, b in (s, s[::-1]):
+            if a == opt and b[0] == "agg" and b[2] == "Some" and len(b[4]) == 1 and b[4][0][1] == x:
+                direct = holds
+            if a == ("discr", opt) and b[0] == "int" and b[1] in (0, 1):
+                some = holds if b[1] == 1 else (not holds)
+            if a == payload and b == x:
+                pe = holds
+    if direct is not None:
+        return direct
+    if some is False or pe is False:
+        return False
+    if some is True and pe is True:
+        return True
+    return None
